@@ -1,5 +1,5 @@
 #!/usr/bin/env python3
-"""probe.py <check> <harness> '<json params>' [max_paths] [wall]: run one work item in-process and print stats."""
+"""probe.py <check> <harness> '<json params>' [max_paths] [wall] [spread-seed]: run one work item in-process and print stats."""
 import sys, time, json
 sys.path.insert(0, '/verif')
 sys.setrecursionlimit(10000)
@@ -14,7 +14,7 @@ if hasattr(mod, 'params_from_json'):
 mp = int(sys.argv[4]) if len(sys.argv) > 4 else 300
 wall = float(sys.argv[5]) if len(sys.argv) > 5 else 60
 t = time.time()
-ex = Explorer(getattr(mod, sys.argv[2]), params, max_paths=mp, wall_s=wall, path_wall_s=30)
+ex = Explorer(getattr(mod, sys.argv[2]), params, max_paths=mp, wall_s=wall, path_wall_s=30, spread=(int(sys.argv[6]) if len(sys.argv) > 6 else None))
 st = ex.run()
 print("paths", st.paths, "pruned", st.pruned, "queries", st.queries, "solver %.1f" % st.solver_time, "wall %.1f" % (time.time() - t),
       "oblig", st.obligations, "proved", st.proved, "unk", st.unknown, "cex", len(st.cex), "unrep", len(st.unreproduced),
